@@ -582,6 +582,10 @@ type GenCfg struct {
 	NReads   int
 	// ListNames: names under which half of the merged trees carry a list, so that list merges meet existing lists
 	ListNames []string
+	// InitLists (out of 10): chance that the initial tree carries lists of 2-4 elements under the ListNames
+	InitLists int
+	// MoveBias (out of 10): chance that a removal addresses an element of one of the ListNames directly
+	MoveBias int
 	// D14Open: re-attachments are constructed away (counted in Case.ExclD14)
 	D14Open bool
 }
@@ -660,14 +664,45 @@ func nestUnder(name string, v *gen.Tree) *gen.Tree {
 // Gen draws a history.
 func Gen(t *rapid.T, g *GenCfg) Case {
 	c := Case{PathSep: rapid.IntRange(0, 3).Draw(t, "pathsep") != 0}
-	if rapid.Bool().Draw(t, "withinit") {
+	var used []Addr    // addresses written through the root
+	var usedVia []Addr // addresses written through handles (relative to some handle)
+	if g.InitLists > 0 && rapid.IntRange(0, 9).Draw(t, "initlists") < g.InitLists {
+		// lists of 2-4 elements (primitives and small containers) where the history keeps its lists
+		c.Init = gen.Obj()
+		seen := map[string]bool{}
+		for _, name := range g.ListNames {
+			if seen[name] || rapid.IntRange(0, 3).Draw(t, "skiplist") == 0 {
+				continue
+			}
+			seen[name] = true
+			l := gen.List()
+			for k := rapid.IntRange(2, 4).Draw(t, "initlen"); k > 0; k-- {
+				l.Vals = append(l.Vals, gen.GenTree(t, g.Trees, 1))
+			}
+			// nestUnder builds a fresh chain; merge it into what is there
+			parts := strings.Split(name, ".")
+			cur := c.Init
+			for j, p := range parts {
+				if j == len(parts)-1 {
+					cur.Put(p, l)
+				} else {
+					nx := cur.Get(p)
+					if nx == nil || nx.K != "obj" {
+						nx = gen.Obj()
+						cur.Put(p, nx)
+					}
+					cur = nx
+				}
+			}
+			used = append(used, Addr{name, 0}, Addr{name, 1})
+		}
+	} else if rapid.Bool().Draw(t, "withinit") {
 		c.Init = gen.GenObj(t, g.Trees, g.Trees.Depth)
 		if len(g.ListNames) > 0 && rapid.Bool().Draw(t, "initlist") {
 			c.Init.Put(strings.Split(g.ListNames[0], ".")[0], gen.GenList(t, g.Trees, 1))
 		}
 	}
-	var used []Addr    // addresses written through the root
-	var usedVia []Addr // addresses written through handles (relative to some handle)
+	pooling := 0 // operations so far that may have put a handle into the pool
 	n := rapid.IntRange(g.MinOps, g.MaxOps).Draw(t, "nops")
 	for i := 0; i < n; i++ {
 		kind := rapid.SampledFrom(g.Kinds).Draw(t, "kind")
@@ -679,8 +714,11 @@ func Gen(t *rapid.T, g *GenCfg) Case {
 			kind = SetChild
 		}
 		op := Op{Kind: kind, Idx: -1}
-		if i > 1 && rapid.IntRange(0, 9).Draw(t, "viahandle") < 4 {
+		if pooling > 0 && rapid.IntRange(0, 9).Draw(t, "viahandle") < 4 {
 			op.H = rapid.IntRange(1, 6).Draw(t, "h")
+		}
+		if kind == Child || kind == SetChild {
+			pooling++
 		}
 		pool := &used
 		if op.H > 0 {
@@ -689,6 +727,11 @@ func Gen(t *rapid.T, g *GenCfg) Case {
 		if kind != Merge {
 			var a Addr
 			switch {
+			case kind == Remove && op.H == 0 && len(g.ListNames) > 0 && rapid.IntRange(0, 9).Draw(t, "movebias") < g.MoveBias:
+				a = Addr{rapid.SampledFrom(g.ListNames).Draw(t, "rmlist"), rapid.IntRange(0, 2).Draw(t, "rmidx")}
+				if c.PathSep && rapid.Bool().Draw(t, "rmdotted") {
+					a = Addr{a.Name + "." + strconv.Itoa(a.Idx), -1}
+				}
 			case (kind == Set || kind == SetChild || kind == Reattach) && (len(*pool) == 0 || rapid.IntRange(0, 9).Draw(t, "fresh") < 6):
 				a = GenAddr(t, g, "")
 			case len(*pool) > 0 && rapid.IntRange(0, 9).Draw(t, "rel") < 7:
